@@ -11,7 +11,7 @@ What is modelled, as the code is written:
 * `Journal.__enter__` (_journaling.py 157-170): refuse (RuntimeError, nothing changed) when this
   journal object is already active; otherwise active := True; previous := current; current :=
   self; captured := the current table; install one wrapper per slot;
-* `Journal.__exit__` (172-176): reinstall the captured table; current := previous; active :=
+* `Journal.__exit__` (171-175): reinstall the captured table; current := previous; active :=
   False.  It returns None, so an exception raised in the block propagates;
 * the four wrapper factories (_wrappers.py 32-126).  Order of effects as written:
   `_init_wrapper` calls the original FIRST and records only if it returned; its own result is
@@ -19,7 +19,7 @@ What is modelled, as the code is written:
   call the original and return its result (so a call that raises has already been recorded);
   the container wrapper records on `getattr(self, target_attr)` (the owning graph / node), not on
   the container;
-* `Journal.record` (173-187): appends an entry whose only designation of the object is a
+* `Journal.record` (182-196): appends an entry whose only designation of the object is a
   weak reference (plus the integer `id`), the operation name and strings;
 * the instrumented operations themselves are abstract: `Cfg.impl k self arg` is the behaviour of
   the original function of slot `k` as an interaction tree (`Prog`): it reads and writes an
@@ -155,7 +155,7 @@ def Entry.strong (e : Entry) : List Obj := match e.ref with
   | .strong o => [o]
   | .weak _ => []
 
-/-- `Journal.record(obj, operation, ...)`'s entry (173-184). -/
+/-- `Journal.record(obj, operation, ...)`'s entry (182-193). -/
 def mkEntry (k : Nat) (target : Obj) : Entry :=
   { slot := k, operation := opOf k, ref := .weak target, objectId := target }
 
@@ -199,7 +199,7 @@ structure Cfg (σ : Type) where
   /-- body of the original function of each slot -/
   impl : Nat → Obj → Val → Prog σ
   /-- `_graph` of an input/output/initializer container, `_owner` of an attribute container
-      (assigned once in the container's constructor, _graph_containers.py 31, 262, 412) -/
+      (assigned once in the container's constructor, _graph_containers.py 31, 265, 438) -/
   owner : Obj → Obj
   /-- does the wrapper's `details` expression for slot `k`, called on `self` with `arg`, evaluate
       normally in this IR state (`false`: it raises) -/
@@ -283,7 +283,7 @@ def enterRaw {σ : Type} (j : Nat) (w : World σ) : World σ :=
 def enter {σ : Type} (j : Nat) (w : World σ) : Option (World σ) :=
   if (w.journals j).active then none else some (enterRaw j w)
 
-/-- `Journal.__exit__` (172-176, _wrappers.py 469-578).  With `captured = none` (never entered)
+/-- `Journal.__exit__` (171-175, _wrappers.py 469-578).  With `captured = none` (never entered)
     Python raises KeyError before changing anything; `withJ` never gets there. -/
 def exit {σ : Type} (j : Nat) (w : World σ) : World σ :=
   let js := w.journals j
